@@ -28,9 +28,14 @@
    goroutine consumes an event before each sequence.  The statements compose with the parser
    model of C02 to raw child bytes ([C05_bytes_*]).  Drawing: every SetCell of Draw and
    the cursor it shows lie inside the window, whose size Draw makes the terminal's size
-   ([C05_draw_inside]); by C11_setcell_clip nothing outside the window's clip changes. *)
+   ([C05_draw_inside]); by C11_setcell_clip nothing outside the window's clip changes.
+   The decidable statement of the property on one observed history ([hist_holds]: after every
+   step outcome ok, cursor inside, margins ordered and inside, every row of both grids of the
+   terminal's width, at most two events pending) is sound for the model
+   ([C05_agreeing_history_verdict], proofs/TermObs.v): a history on which the model agrees with
+   every observation satisfies it, or is exactly the recorded finding event-stall. *)
 From Vx Require Import base.Prelude base.ListX model.Colour model.Sgr model.Term model.TermCheck
-  proofs.TermProofs proofs.TermSafe proofs.TermBytes.
+  proofs.TermProofs proofs.TermSafe proofs.TermBytes proofs.TermObs.
 
 (* term_safe: from New(), after the first resize, for every prefix of every history *)
 Theorem C05_term_safe : forall (w h : Z) (hs : list hstep),
@@ -94,6 +99,63 @@ Theorem C05_bytes_safe : forall seg w h cs,
   forall n, exists t', run term_new (HResize w h :: firstn n (hist_of seg cs)) = TOk t' /\ well_formed t'.
 Proof. exact bytes_safe. Qed.
 Print Assumptions C05_bytes_safe.
+
+(* the predicate the differential run evaluates on the implementation's observations
+   ([c05_hist_violations] = cases where [hist_holds] fails) is satisfied by everything the
+   model describes: if the model reproduces every observation of a history from New() (no
+   mismatch), then every observation satisfies [obs_wf] (no violation) - unless the schedule
+   lets a third event accumulate, and then the case is exactly the Known class
+   ([c05_hist_known] = [stall_only 0]) *)
+Theorem C05_agreeing_history_verdict : forall (w h : Z) (o0 : obs) (rest : hist_case),
+  1 <= w -> 1 <= h -> Forall hstep_ok (map fst rest) ->
+  hist_model_ok ((HResize w h, o0) :: rest) = true ->
+  if stall_free (map fst rest) then hist_holds ((HResize w h, o0) :: rest) = true
+  else stall_only 0 ((HResize w h, o0) :: rest) = true.
+Proof. exact hist_match_verdict. Qed.
+Print Assumptions C05_agreeing_history_verdict.
+
+Theorem C05_agreeing_history_holds : forall (w h : Z) (o0 : obs) (rest : hist_case),
+  1 <= w -> 1 <= h -> Forall hstep_ok (map fst rest) -> stall_free (map fst rest) = true ->
+  hist_model_ok ((HResize w h, o0) :: rest) = true ->
+  hist_holds ((HResize w h, o0) :: rest) = true.
+Proof. exact hist_match_holds. Qed.
+Print Assumptions C05_agreeing_history_holds.
+
+(* one matching observation of a state satisfying the invariant satisfies the predicate *)
+Theorem C05_matching_observation_wf : forall e w h t o,
+  WFs0 e w h t -> o_out o = 0 -> obs_matches t o = true -> obs_wf o = true.
+Proof. exact obs_matches_wf. Qed.
+Print Assumptions C05_matching_observation_wf.
+
+(* non-vacuity: an agreeing history with a saved cursor restored after a shrink (the
+   hypotheses hold, the schedule is stall free), and an agreeing history that ends in the stall *)
+Example C05_agreeing_example :
+  let o := fun rows cols row col ev => mkObs 0 rows cols row col false 0 (rows - 1) 0 (cols - 1) ev
+                                          (zrepeat cols rows) (zrepeat cols rows) None in
+  let rest := [(HFeed false (TCsi [63] [[1049]] 104), o 3 4 0 0 0);
+               (HFeed false (TCsi [] [[3]; [4]] 72), o 3 4 2 3 0);
+               (HFeed false (TEsc [] 55), o 3 4 2 3 0);
+               (HResize 2 2, o 2 2 1 0 0);
+               (HFeed false (TEsc [] 56), o 2 2 1 1 0);
+               (HFeed false (TCsi [] [[2]] 75), o 2 2 1 1 0)] in
+  Forall hstep_ok (map fst rest) /\ stall_free (map fst rest) = true /\
+  hist_model_ok ((HResize 4 3, o 3 4 0 0 0) :: rest) = true.
+Proof.
+  cbv zeta. split; [|split; vm_compute; reflexivity].
+  repeat (apply Forall_cons || apply Forall_nil); cbn;
+    repeat (apply Forall_cons || apply Forall_nil); try exact I; try (unfold SgrProofs.nonempty; discriminate); lia.
+Qed.
+
+Example C05_agreeing_stall_example :
+  let o := fun out ev => mkObs out 1 1 0 0 false 0 0 0 0 ev [1] [1] None in
+  let rest := [(HFeed false (TC0 7), o 0 1); (HFeed false (TC0 7), o 0 2);
+               (HFeed false (TC0 7), mkObs 2 0 0 0 0 false 0 0 0 0 0 [] [] None)] in
+  Forall hstep_ok (map fst rest) /\ stall_free (map fst rest) = false /\
+  hist_model_ok ((HResize 1 1, o 0 0) :: rest) = true.
+Proof.
+  cbv zeta. split; [|split; vm_compute; reflexivity].
+  repeat constructor.
+Qed.
 
 (* the per-function layer: every control function keeps the invariant (two of ~50) *)
 Theorem C05_print_preserves : forall e w h t g pw,
